@@ -35,6 +35,10 @@ structure Defects where
       *both* go (`zip`): an input that delivers only a proper prefix of the required ordering passes and gets no Sort
       enforcer (seeded change; the shipped code asks for at least as many delivered keys as required ones) -/
   orderingPrefixEitherWay : Bool := false
+  /-- HashJoin looks the key of a left row up in a HashMap whose keys compare NULL = NULL (as GROUP BY and DISTINCT
+      need): a left row with a NULL join key is paired with every right row whose key is NULL (repaired; the operator was
+      never chosen by the shipped cost model) -/
+  hashJoinNullEqualsNull : Bool := false
   deriving Repr, Inhabited
 
 abbrev Defects.none : Defects := {}
@@ -681,5 +685,35 @@ def nlInner (kl kr : List Nat) (l r : List Row) : List Row :=
   l.flatMap (fun a => (r.filter (fun b =>
     let ka := kl.map (fun c => a.getD c .null)
     !ka.any (· == .null) && ka == kr.map (fun c => b.getD c .null))).map (fun b => a ++ b))
+
+/-! ## Physical join operators
+
+JoinRule (sql/planner/rules.rs) offers a nested-loop join for every join and, when the condition is a conjunction of
+`column = column` taking one column from either input, a hash join and a merge join on those key columns.  Which of
+them runs is the cost model's choice; all must return the rows of the join. -/
+
+/-- (left column, right column) pairs of an equi condition over inputs of widths `lw` and whatever; `none` if the
+    condition is no such conjunction (JoinOp::is_equi_join / extract_equi_keys) -/
+def equiKeys (lw : Nat) : Expr → Option (List (Nat × Nat))
+  | .cmp .eq (.col a) (.col b) =>
+    if (decide (a < lw)) != (decide (b < lw)) then some [(min a b, max a b - lw)] else none
+  | .and x y =>
+    match equiKeys lw x, equiKeys lw y with
+    | some k1, some k2 => some (k1 ++ k2)
+    | _, _ => none
+  | _ => none
+
+def joinKey (ks : List Nat) (r : Row) : List Value := ks.map (fun c => r.getD c .null)
+
+/-- the probe of the hash join: the right rows stored under the left row's key -/
+def hashMatch (D : Defects) (kl kr : List Nat) (a b : Row) : Bool :=
+  joinKey kl a == joinKey kr b && (D.hashJoinNullEqualsNull || !(joinKey kl a).any (· == .null))
+
+/-- the match relation `column = column AND …` defines: every key pair compares equal, no NULL among them -/
+def equiMatch (kl kr : List Nat) (a b : Row) : Bool :=
+  ((joinKey kl a).zip (joinKey kr b)).all (fun p => cmp3 .eq p.1 p.2 == some true)
+
+def hashJoin (D : Defects) (k : JoinKind) (kl kr : List Nat) (lw rw : Nat) (l r : List Row) : List Row :=
+  joinPure k (hashMatch D kl kr) lw rw l r
 
 end AxVerif.Plan
